@@ -460,6 +460,34 @@ class StartStageHandler(
                     )
             return
         except ConcurrencyError:
+            # The CAS can lose to a writer that did NOT claim the stage: a
+            # buffered persistent signal or join-tracking bookkeeping bumps the
+            # row version without changing its phase. Swallowing that as a
+            # duplicate leaves the stage unstarted forever (nothing re-sends
+            # StartStage). Only ignore the message when someone else really
+            # moved the stage on; otherwise send the start request again.
+            fresh = self.repository.retrieve_stage(stage.id)
+            if claim_expected_phase == "NOT_STARTED":
+                still_unclaimed = fresh.status == WorkflowStatus.NOT_STARTED
+            else:
+                fresh_synthetic = self.repository.get_synthetic_stages(fresh.execution.id, fresh.id)
+                still_unclaimed = fresh.status == WorkflowStatus.RUNNING and not fresh.tasks and not fresh_synthetic
+            if still_unclaimed:
+                logger.debug(
+                    "StartStage for %s lost its claim to a non-claiming writer, re-queuing",
+                    stage.name,
+                )
+                retry_count = getattr(message, "retry_count", 0) or 0
+                self.queue.push(
+                    StartStage(
+                        execution_type=message.execution_type,
+                        execution_id=message.execution_id,
+                        stage_id=message.stage_id,
+                        retry_count=retry_count + 1,
+                    ),
+                    self.retry_delay,
+                )
+                return
             # Another handler already claimed this stage (race condition with
             # multiple upstream stages completing simultaneously). This is safe
             # to ignore - the stage is already being processed.
